@@ -189,7 +189,7 @@ class GenericRun(ComputeRun):
     member per team: post()[i][0], prior[i][0]; spec() is the published update on the aggregates.
     Raises symrt.UncutLoop when a loop over a team is outside the rule (proof not attempted)."""
 
-    def __init__(self, model, n, ranks, gamma_mode="default"):
+    def __init__(self, model, n, ranks, gamma_mode="default", safety=False):
         from .. import teams as T
         self.model, self.sizes, self.ranks, self.gamma_mode = model, (1,) * n, ranks, gamma_mode
         self.order, self.player_order = list(range(n)), {}
@@ -197,7 +197,7 @@ class GenericRun(ComputeRun):
         self.loops_rewritten = list(S.loops_rewritten)
         self.tm = game.stub_tm_real(S)
         game.stub_phi_real(S)
-        self.ctx = Ctx("R")
+        self.ctx = Ctx("R", safety=safety)
         self.gamma_spec = None
         box = {}
 
